@@ -75,10 +75,19 @@ func makeChunks(sp *Spec) ([]*rag.Chunk, [][]float64) {
 	}
 	var chunks []*rag.Chunk
 	var embs [][]float64
+	// chunk indices usually equal the position; merged or reordered collections carry
+	// whatever indices their chunks were born with (including 0 at a later position)
+	foreignIdx := r.Pct(30)
 	for i := 0; i < sp.N; i++ {
 		md := rag.ChunkMetadata{DocumentTitle: pick(), SectionTitle: pick(), PageStart: r.Intn(20), PageEnd: 0, ChunkIndex: i, TotalChunks: sp.N,
 			HeadingLevel: r.Intn(4), HasTable: r.Bool(), HasList: r.Bool(), HasImage: r.Pct(20), CharCount: r.Intn(500), WordCount: r.Intn(90), EstimatedTokens: r.Intn(200)}
 		md.PageEnd = md.PageStart + r.Intn(3)
+		if foreignIdx {
+			md.ChunkIndex = r.Intn(sp.N + 2)
+			if r.Pct(30) {
+				md.ChunkIndex = 0
+			}
+		}
 		for k, m := 0, r.Intn(4); k < m; k++ {
 			md.SectionPath = append(md.SectionPath, pick())
 		}
@@ -176,7 +185,7 @@ func (p *Prop) Generate(base uint64, index int, env *sim.Env) *sim.Case {
 		sp.MissingEmb = r.Intn(sp.N)
 	}
 	if sp.Op == "filter" {
-		sp.Filter = sim.Pick(r, []string{"section", "page", "pagerange", "elementtype", "tables", "lists", "images", "mintokens", "maxtokens", "search", "chain"})
+		sp.Filter = sim.Pick(r, []string{"section", "page", "pagerange", "elementtype", "tables", "lists", "images", "mintokens", "maxtokens", "search", "chain", "branch", "branch"})
 		sp.FilterArg = r.Intn(25)
 	}
 	if sp.Op == "stream" {
@@ -859,6 +868,7 @@ func (p *Prop) filterCheck(sp *Spec, chunks []*rag.Chunk, fail func(string, stri
 	r := sim.NewRand(sp.Seed ^ 0xF11)
 	var got *rag.ChunkCollection
 	var pred func(*rag.Chunk) bool
+	branchFail := ""
 	anyTitle := func() string {
 		if len(chunks) == 0 {
 			return "x"
@@ -925,12 +935,56 @@ func (p *Prop) filterCheck(sp *Spec, chunks []*rag.Chunk, fail func(string, stri
 			kw := sim.Pick(r, []string{"COMMA", "quote", "#1", "😀", "\n", "json", "", "école", "ärger", "ωmega", "É", "STRASSE", "Ω"})
 			got = cc.Search(kw)
 			pred = func(c *rag.Chunk) bool { return strings.Contains(strings.ToLower(c.Text), strings.ToLower(kw)) }
+		case "branch":
+			// an intermediate result used twice: both uses, and the intermediate result itself,
+			// must be pure selections
+			mid := cc.FilterWithTables()
+			midBefore := append([]*rag.Chunk{}, mid.Chunks...)
+			a := mid.Search("a")
+			b := mid.FilterByMaxTokens(arg * 8)
+			c2 := mid.Filter(func(c *rag.Chunk) bool { return c.Metadata.HasList })
+			same := func(x, y []*rag.Chunk) bool {
+				if len(x) != len(y) {
+					return false
+				}
+				for i := range x {
+					if x[i] != y[i] {
+						return false
+					}
+				}
+				return true
+			}
+			sel := func(p func(*rag.Chunk) bool) []*rag.Chunk {
+				var out []*rag.Chunk
+				for _, c := range chunks {
+					if c.Metadata.HasTable && p(c) {
+						out = append(out, c)
+					}
+				}
+				return out
+			}
+			switch {
+			case !same(mid.Chunks, midBefore):
+				branchFail = "filtering an intermediate result changed the intermediate result"
+			case !same(a.Chunks, sel(func(c *rag.Chunk) bool { return strings.Contains(strings.ToLower(c.Text), "a") })):
+				branchFail = "FilterWithTables().Search(\"a\") is wrong once the intermediate result is filtered again"
+			case !same(b.Chunks, sel(func(c *rag.Chunk) bool { return c.Metadata.EstimatedTokens <= arg*8 })):
+				branchFail = "the second filter applied to the same intermediate result is wrong"
+			case !same(c2.Chunks, sel(func(c *rag.Chunk) bool { return c.Metadata.HasList })):
+				branchFail = "the third filter applied to the same intermediate result is wrong"
+			}
+			got = mid
+			pred = func(c *rag.Chunk) bool { return c.Metadata.HasTable }
 		default: // chain
 			got = cc.FilterWithTables().FilterByMinTokens(arg).Filter(func(c *rag.Chunk) bool { return c.Metadata.ChunkIndex%2 == 0 })
 			pred = func(c *rag.Chunk) bool { return c.Metadata.HasTable && c.Metadata.EstimatedTokens >= arg && c.Metadata.ChunkIndex%2 == 0 }
 		}
 		return nil
 	}); !ok {
+		return
+	}
+	if branchFail != "" {
+		fail("filter:branch", branchFail)
 		return
 	}
 	var want []*rag.Chunk
